@@ -1183,9 +1183,22 @@ fn run_op(p: &mut Pair, cfg: &E2eCfg, op: &str, out: Option<&mut dyn Write>) -> 
     let groups = if is154 { print_dgrams(out, "ab", &fa, &mut p.tag0[0]) } else { (0..fa.len()).map(|i| vec![i]).collect() };
     // deliver: the schedule applies to the frames of a single datagram; several datagrams go in order
     let sched = if t[0] == "burst" || t[0] == "eburst" || t[0] == "tcp" { "io" } else { kv(&t, "sched") };
-    for g in &groups {
-        for j in schedule(sched, g.len()) {
-            p.b.dev.rx.push_back(fa[g[j]].clone());
+    if t[0] == "burst" && t.iter().any(|x| *x == "il=1") {
+        // the datagrams of the burst arrive interleaved frame by frame (fragments of different
+        // datagrams alternate at the receiver)
+        let m = groups.iter().map(|g| g.len()).max().unwrap_or(0);
+        for i in 0..m {
+            for g in &groups {
+                if i < g.len() {
+                    p.b.dev.rx.push_back(fa[g[i]].clone());
+                }
+            }
+        }
+    } else {
+        for g in &groups {
+            for j in schedule(sched, g.len()) {
+                p.b.dev.rx.push_back(fa[g[j]].clone());
+            }
         }
     }
     let fb = match pump(&mut p.b) {
@@ -1693,13 +1706,30 @@ fn gen_e2e_case_x(rng: &mut Rng, id: String, tier: &str, with_eburst: bool) -> C
         };
         let mut op = match if mcast { rng.below(6) } else { rng.below(10) } {
             0..=4 => format!("udp sp={} dp={} hl={} len={} pat={} sched={}", gen_port(rng).max(1), gen_port(rng).max(1), hl, gen_len(rng, tier), rng.next() as u8, gen_sched(rng)),
-            5 => format!("burst k={} sp={} dp={} hl={} len={} pat={}", rng.range(2, 3), gen_port(rng).max(1), gen_port(rng).max(1), hl, gen_len(rng, tier), rng.next() as u8),
+            5 => format!("burst k={} sp={} dp={} hl={} len={} pat={}{}", rng.range(2, 3), gen_port(rng).max(1), gen_port(rng).max(1), hl, gen_len(rng, tier), rng.next() as u8,
+                         if rng.chance(1, 3) { " il=1" } else { "" }),
             _ => format!("echo seq={} hl={} len={} pat={} sched={}", rng.next() as u16, hl, gen_len(rng, tier).min(1400), rng.next() as u8, gen_sched(rng)),
         };
         let (ab, ba) = ref_op(&mut pip, &ecfg, &op);
         let hx = |v: &Vec<Vec<u8>>| if v.is_empty() { "-".to_string() } else { v.iter().map(|d| hex(d)).collect::<Vec<_>>().join(",") };
         op.push_str(&format!(" ref={} rref={}", hx(&ab), hx(&ba)));
-        c.ops.push(op);
+        c.ops.push(op.clone());
+        // a datagram with a withheld fragment leaves a partial reassembly behind: follow it with a
+        // datagram of the SAME size (same key but for the tag) -- at once, or (multicast cases: `wait`
+        // polls at exactly the given time there) around the instant the slot expires.  The partial
+        // datagram must neither be completed by the newcomer's fragments nor survive its timeout.
+        if op.starts_with("udp ") && op.contains("sched=drop") && rng.chance(1, 2) {
+            if mcast && rng.chance(2, 3) {
+                let w = format!("wait ms={}", *rng.pick(&[59998i64, 59999, 60000]));
+                let _ = run_op(&mut pip, &ecfg, &w, None);
+                c.ops.push(w);
+            }
+            let t: Vec<&str> = op.split_whitespace().collect();
+            let mut op2 = format!("udp sp={} dp={} hl={} len={} pat={} sched=io stale=1", kv(&t, "sp"), kv(&t, "dp"), kv(&t, "hl"), kv(&t, "len"), rng.next() as u8);
+            let (ab, ba) = ref_op(&mut pip, &ecfg, &op2);
+            op2.push_str(&format!(" ref={} rref={}", hx(&ab), hx(&ba)));
+            c.ops.push(op2);
+        }
         if with_eburst && !mcast && rng.chance(1, 6) {
             let mut op = format!("eburst k=2 seq={} len={} pat={}", rng.next() as u16, rng.range(100, 600), rng.next() as u8);
             let (ab, ba) = ref_op(&mut pip, &ecfg, &op);
@@ -1725,15 +1755,17 @@ fn gen_e2e_case_x(rng: &mut Rng, id: String, tier: &str, with_eburst: bool) -> C
 /// fragment), so that the expectation of the following ops does not depend on the receiver's slot
 fn oracle_case_from(mut c: Case) -> Case {
     let mut ops = vec![];
-    for op in c.ops.drain(..) {
-        // hand-made frames (recv) are the correspondence stream's business; some leave an incomplete
-        // reassembly behind on purpose
-        if op.starts_with("recv") {
-            continue;
-        }
-        let stale = op.contains("sched=drop") || op.contains("sched=dup");
-        ops.push(op);
-        if stale {
+    // hand-made frames (recv) are the correspondence stream's business; some leave an incomplete
+    // reassembly behind on purpose
+    let all: Vec<String> = c.ops.drain(..).filter(|op| !op.starts_with("recv")).collect();
+    for (i, op) in all.iter().enumerate() {
+        let stale = op.contains("sched=drop") || op.contains("sched=dup") || op.contains(" il=1") || op.contains(" stale=1");
+        ops.push(op.clone());
+        // ... except in front of a same-size follow-up (`stale=1`, possibly behind its own wait), whose
+        // whole point is the partial reassembly
+        let followup = |j: usize| all.get(j).is_some_and(|o| o.contains(" stale=1"));
+        let keep = followup(i + 1) || (all.get(i + 1).is_some_and(|o| o.starts_with("wait")) && followup(i + 2));
+        if stale && !keep {
             ops.push("wait ms=61000".to_string());
         }
     }
@@ -1795,6 +1827,29 @@ fn oracle_e2e_case(c: &Case, fails: &mut Vec<String>, stats: &mut BTreeMap<Strin
             if !got_ab.is_empty() {
                 fail("delivered-though-fragment-missing", format!("op#{} `{}`", k, &op[..op.len().min(60)]));
             }
+            continue;
+        }
+        // a datagram that meets a partial reassembly of the same size (stale=1), or whose fragments arrive
+        // interleaved with those of other datagrams (il=1): how many get through depends on the number of
+        // reassembly slots, but whatever is delivered must be one of the datagrams sent, and of an
+        // interleaved burst the first one owns the slot and must arrive
+        let stale_followup = t.iter().any(|x| *x == "stale=1");
+        let interleaved = t.iter().any(|x| *x == "il=1");
+        if stale_followup || interleaved {
+            for g in &got_ab {
+                *stats.entry("delivered".into()).or_default() += 1;
+                if !refs.iter().any(|d| &d == g) {
+                    fail(
+                        "datagram-differs-from-reference",
+                        format!("op#{} `{}`: got {} which is none of the datagrams sent (fragments of different datagrams mixed?)", k, &op[..op.len().min(60)], hex(g)),
+                    );
+                    break;
+                }
+            }
+            if interleaved && !sendable.is_empty() && maybe == 0 && got_ab.is_empty() {
+                fail("not-delivered-though-all-fragments-arrived", format!("op#{} `{}`: none of {} interleaved datagrams delivered", k, &op[..op.len().min(60)], refs.len()));
+            }
+            *stats.entry(if interleaved { "interleaved" } else { "stale_followup" }.into()).or_default() += 1;
             continue;
         }
         // everything delivered is a reference datagram, in order; every surely-sendable one is delivered
